@@ -69,6 +69,8 @@ def token_ok(res, y_out, prompt, issuer):
 
 
 # ------------------------------------------------------------------ C07
+construct("BioAgent", "operon_ai.core.agent", {"name": "a", "role": "Executor", "atp_store": "@new:ATP_Store"})
+
 contract(T + "._apply_gate_logic", "C07",
          requires=["encodable(user_prompt)"],
          raises=[], inline=False, returns="obj:LoopResult", modifies=[],
